@@ -154,29 +154,34 @@ impl FoldFSM {
         )
     }
 
-    /// The unclaimed fold lore split by cause: (entries, states) of lore whose stream value has a
-    /// position in the new trace but was not iterated in this run, and of lore whose stream value has
-    /// no position in the new trace at all.
+    /// The unclaimed fold lore split by cause, (entries, states) each: the stream value of the lore
+    /// has a position in the new trace but was not iterated in this run ("unvisited"); its state in
+    /// the previous/current trace has not been reached by this run yet ("unreplayed"); its state was
+    /// consumed by this run but no position mapping leads to it ("lost mapping").
     #[cfg(aquavm_verif)]
-    pub(crate) fn verif_unclaimed_lore_by_cause(&self, data_keeper: &DataKeeper) -> [(usize, u64); 2] {
+    pub(crate) fn verif_unclaimed_lore_by_cause(&self, data_keeper: &DataKeeper) -> [(usize, u64); 3] {
         let mut unvisited = (0, 0);
-        let mut unmapped = (0, 0);
+        let mut unreplayed = (0, 0);
+        let mut lost_mapping = (0, 0);
         let folds = [
-            (&self.prev_fold, &data_keeper.new_to_prev_pos),
-            (&self.current_fold, &data_keeper.new_to_current_pos),
+            (&self.prev_fold, &data_keeper.new_to_prev_pos, &data_keeper.prev_ctx),
+            (&self.current_fold, &data_keeper.new_to_current_pos, &data_keeper.current_ctx),
         ];
-        for (fold, new_to_ctx_pos) in folds {
+        for (fold, new_to_ctx_pos, ctx) in folds {
             for (value_pos, lore) in fold.lore.iter() {
                 let states = lore.before_subtrace.subtrace_len as u64 + lore.after_subtrace.subtrace_len as u64;
-                let slot = match new_to_ctx_pos.get_by_right(value_pos) {
-                    Some(_) => &mut unvisited,
-                    None => &mut unmapped,
+                let slot = if new_to_ctx_pos.get_by_right(value_pos).is_some() {
+                    &mut unvisited
+                } else if ctx.slider.verif_was_consumed(*value_pos) {
+                    &mut lost_mapping
+                } else {
+                    &mut unreplayed
                 };
                 slot.0 += 1;
                 slot.1 += states;
             }
         }
-        [unvisited, unmapped]
+        [unvisited, unreplayed, lost_mapping]
     }
 
     pub(crate) fn meet_fold_end(self, data_keeper: &mut DataKeeper) {
